@@ -201,6 +201,21 @@ def fam_types3(tnames=('TA', 'TN'), *, batch: int = 2) -> Iterator[Config]:
             yield Config(spec=spec, requested=tuple((i, False) for i in range(3)), batch=batch)
 
 
+def fam_corrupt(nmin: int = 2, nmax: int = 3, *, batch: int = 2) -> Iterator[Config]:
+    """Warm caches in which the stored result of one entry is damaged (metadata intact): the entry looks
+    cached, cannot be loaded - the task fails; it is not re-run behind the caller's back."""
+    for n in range(nmin, nmax + 1):
+        for shape in all_shapes(n):
+            if not any(shape):
+                continue
+            spec = mk_spec(shape)
+            for req in (tuple(range(n)), (n - 1,)):
+                clo = sorted(closure(shape, req))
+                for c in clo:
+                    for pre in (tuple(clo), (c,)):
+                        yield Config(spec=spec, requested=tuple((i, False) for i in req), precached=pre, corrupt=(c,), batch=batch)
+
+
 def fam_e3(bases: Iterable[Config], *, backends=('fork', 'spawn'), workers=(1, 2, None), cpu_count: int = 2,
            die_exit0=(False,), liveness: bool = True, monitor: bool = False, linger: bool = False, queue_scale=None):
     """Real ProcessRunner configurations over the virtual OS for the given base configurations."""
